@@ -11,7 +11,7 @@ import (
 )
 
 func init() {
-	register("C02", "Loading and validation never crash and terminate: (R1) nil safety — every dereference, reachable from Validate/Walk/LoadSchema and the rules, of a value that may be nil for a parseable document (a 'requires validation' link, a map lookup, a ForName result, a phi with nil) is dominated by a nil test of the same value or access path, directly or through the callee's requires-non-nil summary; (R2) every reachable panic sits in the default of an exhaustive switch; (R3) every cycle of the call graph of the validator, the rules and the loader either descends the finite document/type tree in every call (arguments reached from parameters through child fields only) or passes a visited-set gate (a membership test whose 'present' side skips the recursion and whose 'absent' side inserts before recursing); (R4) the gate's set is grow-only while the traversal runs (no delete, plain or deferred), which is what keeps fragment-following work linear in the number of fragments instead of exponential; (R5) every loop in that scope is a range loop, a counting loop towards a bound it does not change, a pointer cursor stepping to its own child, or a work list that loses one element per iteration and is only fed strict parts of that element or values that pass a visited-set gate. (R6) every index and slice expression of the validation scope is in bounds: the numeric abstract interpreter with access-path length symbols and contracts for make, append, HasPrefix/HasSuffix and the sort.Slice callback proves each, except four sites that rest on a listed shape invariant. (R4 also) an insertion whose gate looks at the stored value stores a constant or its argument, never a value computed from the previous entry. (R7) every schema node the loader synthesises carries a Position.", runC02)
+	register("C02", "Loading and validation never crash and terminate: (R1) nil safety — every dereference, reachable from Validate/Walk/LoadSchema and the rules, of a value that may be nil for a parseable document (a 'requires validation' link, a map lookup, a ForName result, a phi with nil) is dominated by a nil test of the same value or access path, directly or through the callee's requires-non-nil summary; (R2) every reachable panic sits in the default of an exhaustive switch; (R3) every cycle of the call graph of the validator, the rules and the loader either descends the finite document/type tree in every call (arguments reached from parameters through child fields only) or passes a visited-set gate (a membership test whose 'present' side skips the recursion and whose 'absent' side inserts before recursing); (R4) the gate's set is grow-only while the traversal runs (no delete, plain or deferred), which is what keeps fragment-following work linear in the number of fragments instead of exponential; (R5) every loop in that scope is a range loop, a counting loop towards a bound it does not change, a pointer cursor stepping to its own child, or a work list that loses one element per iteration and is only fed strict parts of that element or values that pass a visited-set gate. (R6) every index and slice expression of the validation scope is in bounds: the numeric abstract interpreter with access-path length symbols and contracts for make, append, HasPrefix/HasSuffix and the sort.Slice callback proves each, except four sites that rest on a listed shape invariant. (R4 also) an insertion whose gate looks at the stored value stores a constant or its argument, never a value computed from the previous entry. (R7) every schema node the loader synthesises carries a Position. (R4 also) the overlap rule's pair cache answers an exclusive query from the presence of an entry, never from the stored flag.", runC02)
 }
 
 func runC02(c *Ctx) {
